@@ -12,3 +12,5 @@ func verifCount(site string) {}
 func verifActivity() {}
 
 func verifSub(site string, s *Subscription) {}
+
+func verifBusy(d int64) {}
